@@ -29,8 +29,8 @@ ASSUMPTIONS = [
 ]
 
 ANGLES = {"angle+": 0.9, "angle-": -1.3, "angle++": 4.0, "angle--": -4.3}  # two reflex sector angles, one of either sign
-KINDS = ["arc", "origin", "angle+", "angle-", "angle++", "angle--", "spline", "polyline", "project1", "project2", "oncurve", "oncurve_ends", "line", "collinear_arc", "zero_length"]
-DIRECTED = {"angle+", "angle-", "angle++", "angle--", "spline", "polyline", "oncurve", "oncurve_ends"}
+KINDS = ["arc", "origin", "angle+", "angle-", "angle++", "angle--", "spline", "polyline", "project1", "project2", "oncurve", "oncurve_ends", "oncurve_neg", "line", "collinear_arc", "zero_length"]
+DIRECTED = {"angle+", "angle-", "angle++", "angle--", "spline", "polyline", "oncurve", "oncurve_ends", "oncurve_neg"}
 OP_USAGES = ["op_invert", "op_mirror"]  # the finished operation inverted / mirrored about a skew plane off the origin
 USAGES = ["given", "invert", "shift1", "shift2", "shift3", "reorient0", "reorient1", "reorient2", "reorient3"]
 
@@ -45,6 +45,8 @@ def cases(tier, seed):
                 for usage in usages:
                     if kind == "zero_length" and (slot < 8 or usage != "given"):
                         continue
+                    if kind == "oncurve_neg" and usage == "op_mirror":
+                        continue  # (an AnalyticCurve is documented as not transformable)
                     out.append({"frame": fr, "kind": kind, "slot": slot, "usage": usage, "dup": "none", "order": 0})
         for kind in ("spline", "angle+", "angle--", "arc", "polyline", "project1", "origin"):
             if tier == "quick" and kind in ("project1", "origin") and fr != 0:
@@ -266,6 +268,20 @@ def user_curve(kind, A, B, frame, flip=False):
         pts = [A, A + chord * 0.15 + w * L * 0.2, A + chord * 0.6 + w * L * 0.25, B]
         ref["curve_points"] = pts
         return (lambda: cb.OnCurve(cb.LinearInterpolatedCurve([list(p) for p in pts]), n_points=7, representation="polyLine")), ref
+    if kind == "oncurve_neg":
+        # an analytic curve (a parabola over the chord) whose parameter runs from below -1 to above 1: vertex A sits
+        # at parameter -1, vertex B at +1
+        mid = (A + B) / 2
+
+        def fcurve(tt):
+            return mid + chord * (tt / 2) + w * (0.2 * L * (1 - tt * tt))
+
+        ref["curve_points"] = [fcurve(-1 + 2 * i / 4000) for i in range(4001)]
+        ref["param_of"] = lambda g: 2 * float(np.dot(g - mid, chord)) / float(np.dot(chord, chord))
+        ref["length_rel"] = 1e-3  # (AnalyticCurve.get_length is a 100-segment polyline by definition)
+        cp = np.array(ref["curve_points"])
+        ref["length"] = float(np.sum(np.linalg.norm(cp[1:] - cp[:-1], axis=1)))
+        return (lambda: cb.OnCurve(cb.AnalyticCurve(fcurve, (-1.3, 1.4)), n_points=7, representation="polyLine")), ref
     if kind in ("line", "zero_length"):
         return (lambda: _Line() if kind == "line" else cb.Spline([list(A + w * 0.1), list(A + w * 0.2)])), ref
     raise AssertionError(kind)
@@ -463,7 +479,7 @@ def run_case(case):
     elif kind in ("project1", "project2"):
         if e["kind"] != "project" or e["labels"] != ref["labels"]:
             bad("project-labels", f"{e}")
-    elif kind in ("oncurve", "oncurve_ends"):
+    elif kind in ("oncurve", "oncurve_ends", "oncurve_neg"):
         if e["kind"] != "polyLine":
             bad("wrong-kind", e["kind"])
         else:
@@ -473,10 +489,24 @@ def run_case(case):
             if np.linalg.norm(got[0] - start) > np.linalg.norm(got[0] - end) or np.linalg.norm(got[-1] - end) > np.linalg.norm(got[-1] - start):
                 bad("direction-point-order", "on-curve points do not run from the first listed vertex to the second")
             cp = ref["curve_points"]
-            for g in got:
-                if min(_seg_dist(g, cp[i], cp[i + 1]) for i in range(len(cp) - 1)) > 1e-5:
-                    bad("oncurve-point-off-curve", f"{g}")
-                    break
+            if "param_of" in ref:
+                cpa = np.array(cp)
+                for g in got:
+                    if float(np.min(np.linalg.norm(cpa - g, axis=1))) > 1e-3 * float(np.linalg.norm(B - A)):
+                        bad("oncurve-point-off-curve", f"{g}")
+                        break
+                # the written points cover the parameter range of the two vertices (-1 .. 1), evenly or not, but not
+                # less: the first / last one is no further than one step of an even division from its vertex
+                ts = [ref["param_of"](g) for g in got]
+                if not forward:
+                    ts = ts[::-1]
+                if min(ts) < -1 - 1e-6 or max(ts) > 1 + 1e-6 or ts[0] > -1 + 2 / 6 + 1e-6 or ts[-1] < 1 - 2 / 6 - 1e-6 or any(b <= a for a, b in zip(ts, ts[1:])):
+                    bad("oncurve-parameter-range", f"parameters of the written points {np.round(ts, 4).tolist()}, the vertices are at -1 and 1")
+            else:
+                for g in got:
+                    if min(_seg_dist(g, cp[i], cp[i + 1]) for i in range(len(cp) - 1)) > 1e-5:
+                        bad("oncurve-point-off-curve", f"{g}")
+                        break
     # edge length used for grading
     if "length" in ref:
         found = 0
@@ -486,7 +516,7 @@ def run_case(case):
                 if {w.vertices[0].index, w.vertices[1].index} == {va, vb}:
                     found += 1
                     got_len = w.edge.length
-                    if not math.isclose(got_len, ref["length"], rel_tol=1e-5):
+                    if not math.isclose(got_len, ref["length"], rel_tol=ref.get("length_rel", 1e-5)):
                         bad("edge-length-for-grading", f"block {bi}: Edge.length {got_len:.6f}, user's curve {ref['length']:.6f}")
         if not found:
             bad("wire-not-found", "")
